@@ -8,13 +8,24 @@ calls the storage code makes (mkdir / open-for-write / first write / close / unl
 rmdir), cuts after the k-th by raising a `BaseException`, and snapshots the directory at the cut
 (= what a dead process leaves).  The history then continues from the snapshot in a fresh object.
 
-The Lean driver runs the model under both `Cfg.saveMode` values on the same op stream; the tree
-must correspond to one of them consistently (`diff`).  The oracle is the property's text and
-never looks at the model.
+After EVERY op the file-system state is probed the way a user would meet it: an explicit `load` into a new
+object of the graph's class, and the construction of a new graph object of the same label with the default
+auto-load back end (`Workflow("g")`); `has_saved_content()` is recorded as well.  A constructor that raises
+is a poisoned auto-load, whatever the exception.
+
+Loads into OTHER node objects (`foreign` op) come with the relation between the class of the saved node and
+the class of the loading node: the same class object / another class object with the same module and
+qualified name (a second class from one factory function; the defining module executed again) / an unrelated
+class / a subclass / a superclass -- produced with real classes (`nodes_c19.py`).
+
+The Lean driver runs the model under its three variants (pinned in-place save / the tree as it is / with the
+proposed delete repair) on the same op stream; the tree must correspond to one of them consistently (`diff`).
+The oracle is the property's text and never looks at the model.
 """
 
 from __future__ import annotations
 
+import json
 import os
 import shutil
 import threading
@@ -40,22 +51,41 @@ THEOREMS = [
     "C19_delete_cleans",
     "C19_wf",
     "C19_class_check",
+    "C19_class_check_refuses",
+    "C19_class_rel_inhabited",
+    "C19_name_check_accepts_foreign",
+    "C19_isinstance_check_accepts_foreign",
     "C19_refused_load_unchanged",
+    "C19_autoload_iff_loadable",
+    "C19_autoload_never_raises",
+    "C19_autoload_decision_sound",
+    "C19_leftover_counting_poisons_autoload",
+    "C19_delete_cleans_full",
+    "C19_delete_cleans_full_pinned",
+    "C19_delete_leftover_witness",
+    "C19_delete_cleans_partial",
 ]
 RULE = (
     "seeded histories over {save ok | save cloudpickle-only | save unserialisable | save interrupted after k "
     "file-system calls (k = 0..9, mid-write cut after 1 / half / all-but-one bytes) | load | delete_storage | "
-    "new object with auto-load | load into a foreign class} on a Workflow or a parentless function node, default "
-    "and explicit file name; plus exhaustively every history of length <= 2 over that alphabet (quick: Workflow / "
-    "default name; thorough: all four configurations, and all length-3 histories of the shape save-or-interrupted-"
-    "save ; any op ; load|reopen|save|delete|foreign); non-trivial = at least one completed save and one further effective op; "
+    "new object with auto-load | load into another node whose class is {the same object | same module+qualname "
+    "but another object | unrelated | a subclass | a superclass}} on a Workflow, an importable function node or a "
+    "function node whose class comes from a factory function (cloudpickle only), default and explicit file name; "
+    "after every op: explicit load and auto-load by construction are probed; plus exhaustively every history of "
+    "length <= 2 over that alphabet (quick: Workflow / default name, and first-op x relation for the other graphs; "
+    "thorough: all configurations, and all length-3 histories of the shape save-or-interrupted-save ; any op ; "
+    "load|reopen|save|delete|foreign); when correspondence or a proof breaks: every history of length <= 3 x every "
+    "crash point (extended_search); non-trivial = at least one completed save and one further effective op; "
     "distinct by canonical op list"
 )
 TRUSTED = [
-    "model Storage.saveSteps/deleteSteps/storageLoad/nodeLoad transcribe StorageInterface.save/delete, "
-    "PickleStorage._save/_load/_delete/_has_saved_content and Node.load (validated on the explored histories "
-    "by comparing the file-system call trace, the four file states, the directory and the node version after "
-    "every op)",
+    "model Storage.saveSteps/deleteSteps/storageLoad/hasSaved/autoAttempt/nodeLoad transcribe "
+    "StorageInterface.save/delete, PickleStorage._save/_load/_delete/_has_saved_content, the auto-load decision of "
+    "Node._after_node_setup and Node.load (validated on the explored histories by comparing the file-system call "
+    "trace, the four file states, the directory, has_saved_content() and the node version after every op)",
+    "class relations: the harness builds the loading class for each relation with real Python classes and reports "
+    "the relation to the model; that `classify` means what Python's `is` / `__qualname__` / `issubclass` mean is "
+    "by reading",
     "crash injection: delegating wrappers around the storage module's `open`, pathlib.Path.mkdir/unlink/rmdir/"
     "iterdir/replace/rename and os.replace/rename/unlink/remove/rmdir; the cut raises a BaseException after "
     "copying the directory; a mid-write cut flushes a strict prefix of the bytes the pickler handed over",
@@ -72,8 +102,15 @@ ASSUMPTIONS = [
 EXPLANATION = ""
 EXHAUSTIVE = {"quick": False, "thorough": True}
 
-GRAPHS = ("wf", "fn")
+GRAPHS = ("wf", "fn", "fac")
 FNAMES = ("default", "explicit")
+# how the class of the loading node is related to the class of the saved node (which relations exist per graph kind)
+RELS = {
+    "wf": ("same", "samename", "diffname", "sub"),
+    "fn": ("same", "samename", "diffname", "sub", "super"),
+    "fac": ("same", "samename", "diffname", "sub", "super"),
+}
+REL_ID = {"same": 0, "samename": 1, "diffname": 2, "sub": 3, "super": 5}  # `Cls.ofRel` of the model
 CONTENTS = ("ok", "pf", "bf")
 BYTESEL = ("one", "mid", "last")
 MAXK = 9
@@ -87,7 +124,7 @@ class Crash(BaseException):
 # ----------------------------------------------------------------------------- generation
 
 
-def _rand_history(rng, length, clean):
+def _rand_history(rng, length, clean, kind="wf"):
     ops = []
     v = 0
     have_good = False
@@ -107,29 +144,32 @@ def _rand_history(rng, length, clean):
                 continue
             v += 1
             ops.append(["save", "bf", v])
-        elif r < 0.72:
+        elif r < 0.70:
             if clean:
                 ops.append(["reopen"])
                 continue
             v += 1
             c = rng.choice(["ok", "ok", "ok", "pf", "pf", "bf"])
             ops.append(["crash", c, v, rng.randint(0, MAXK), rng.choice(BYTESEL)])
-        elif r < 0.80:
+        elif r < 0.77:
             ops.append(["load"])
-        elif r < 0.87:
+        elif r < 0.84:
             ops.append(["delete"])
             have_good = False
-        elif r < 0.95:
+        elif r < 0.90:
             ops.append(["reopen"])
         else:
-            ops.append(["foreign"])
+            ops.append(["foreign", rng.choice(RELS[kind])])
     return ops
 
 
-def _alphabet():
+def _alphabet(kind="wf", maxk=None):
+    """every op; `maxk`: per content, the largest cut worth trying (default: MAXK for all)"""
+    maxk = maxk or {}
     al = [["save", c] for c in CONTENTS]
-    al += [["crash", c, k] for c in CONTENTS for k in range(MAXK + 1)]
-    al += [["load"], ["delete"], ["reopen"], ["foreign"]]
+    al += [["crash", c, k] for c in CONTENTS for k in range(maxk.get(c, MAXK) + 1)]
+    al += [["load"], ["delete"], ["reopen"]]
+    al += [["foreign", rel] for rel in RELS[kind]]
     return al
 
 
@@ -149,60 +189,83 @@ def _number(ops):
     return out
 
 
+def _case(g, f, ops, clean=False):
+    return {"graph": g, "fname": f, "clean": clean, "ops": ops}
+
+
 def gen_cases(rng, tier):
     n = 1000 if tier == "quick" else 10000
     for i in range(n):
         clean = i % 4 == 0
         length = rng.randint(2, 7 if tier == "quick" else 12)
-        yield {"graph": rng.choice(GRAPHS), "fname": rng.choice(FNAMES), "clean": clean,
-               "ops": _rand_history(rng, length, clean)}
+        kind = rng.choice(GRAPHS)
+        yield _case(kind, rng.choice(FNAMES), _rand_history(rng, length, clean, kind), clean)
     # malformed stream: both sides must reject, never default
-    yield {"graph": "wf", "fname": "default", "clean": False,
-           "ops": [["save", "ok", 1], ["save", "zz", 2], ["crash", "ok", 3], ["frobnicate"], ["load"]]}
+    yield _case("wf", "default", [["save", "ok", 1], ["save", "zz", 2], ["crash", "ok", 3], ["frobnicate"], ["load"],
+                                  ["foreign"], ["foreign", "cousin"], ["foreign", "super"]])
     # exhaustive small scope: every history of length <= 2 over the full alphabet (every crash point of
-    # every kind of save) -- quick: Workflow / default name; thorough: all four configurations
-    al = _alphabet()
+    # every kind of save, every class relation) -- quick: Workflow / default name; thorough: all configurations
     configs = [("wf", "default")] if tier == "quick" else [(g, f) for g in GRAPHS for f in FNAMES]
     for g, f in configs:
+        al = _alphabet(g)
         for a in al:
-            yield {"graph": g, "fname": f, "clean": False, "ops": _number([a])}
+            yield _case(g, f, _number([a]))
             for b in al:
-                yield {"graph": g, "fname": f, "clean": False, "ops": _number([a, b])}
+                yield _case(g, f, _number([a, b]))
+    if tier == "quick":
+        # the other graph kinds: every (save | interrupted save) followed by every class relation / probe
+        for g in ("fn", "fac"):
+            al = _alphabet(g)
+            for a in al:
+                if a[0] in ("save", "crash"):
+                    for b in [x for x in al if x[0] == "foreign"] + [["reopen"], ["delete"]]:
+                        yield _case(g, "default", _number([a, b]))
     if tier == "thorough":
         # length 3: (save | interrupted save) ; anything ; (load | reopen | save ok | save pf | delete | foreign)
-        first = [a for a in al if a[0] in ("save", "crash")]
-        last = [["load"], ["reopen"], ["save", "ok"], ["save", "pf"], ["delete"], ["foreign"]]
         for g, f in configs:
+            if (g, f) == ("fac", "explicit"):
+                continue
+            al = _alphabet(g)
+            first = [a for a in al if a[0] in ("save", "crash")]
+            last = [["load"], ["reopen"], ["save", "ok"], ["save", "pf"], ["delete"]] + [x for x in al if x[0] == "foreign"]
             for a in first:
                 for b in al:
                     for c in last:
-                        yield {"graph": g, "fname": f, "clean": False, "ops": _number([a, b, c])}
+                        yield _case(g, f, _number([a, b, c]))
 
 
 def corpus():
     # P11: a failing save after a good one (pinned: good file unlinked, directory removed)
-    yield {"graph": "wf", "fname": "default", "clean": False, "ops": [["save", "ok", 1], ["save", "bf", 2]]}
+    yield _case("wf", "default", [["save", "ok", 1], ["save", "bf", 2]])
     # a save dying right after open(p, "wb") (pinned: good file truncated in place)
-    yield {"graph": "wf", "fname": "default", "clean": False,
-           "ops": [["save", "ok", 1], ["crash", "ok", 2, 2, "mid"]]}
+    yield _case("wf", "default", [["save", "ok", 1], ["crash", "ok", 2, 2, "mid"]])
     # a first save torn mid-write (pinned: the torn .pckl poisons load and auto-load)
-    yield {"graph": "wf", "fname": "default", "clean": False, "ops": [["crash", "ok", 1, 3, "mid"], ["reopen"]]}
+    yield _case("wf", "default", [["crash", "ok", 1, 3, "mid"], ["reopen"]])
     # cloudpickle-only save interrupted after the good .pckl was unlinked (pinned: FileNotFoundError)
-    yield {"graph": "wf", "fname": "default", "clean": False,
-           "ops": [["save", "ok", 1], ["crash", "pf", 2, 3, "mid"]]}
+    yield _case("wf", "default", [["save", "ok", 1], ["crash", "pf", 2, 3, "mid"]])
     # the stale-.pckl trap a replace-only repair would fall into
-    yield {"graph": "wf", "fname": "default", "clean": True,
-           "ops": [["save", "ok", 1], ["save", "pf", 2], ["load"], ["save", "ok", 3], ["reopen"]]}
-    # class check both ways, delete, explicit name, function-node graph
-    yield {"graph": "wf", "fname": "explicit", "clean": True,
-           "ops": [["save", "ok", 1], ["foreign"], ["delete"], ["foreign"], ["load"]]}
-    yield {"graph": "fn", "fname": "default", "clean": True,
-           "ops": [["save", "pf", 1], ["foreign"], ["reopen"], ["delete"], ["reopen"]]}
-    # every cut of each kind of save on top of a good save, both graph kinds
+    yield _case("wf", "default", [["save", "ok", 1], ["save", "pf", 2], ["load"], ["save", "ok", 3], ["reopen"]], True)
+    # interrupted FIRST saves (no good save ever): only a leftover exists, under either temporary name, any size;
+    # constructing the graph again must give a fresh graph (seeded C19-2: has_saved_content counted the leftover)
+    for g in GRAPHS:
+        yield _case(g, "default", [["crash", "ok", 1, 2, "one"]])
+        yield _case(g, "default", [["crash", "ok", 1, 3, "mid"], ["reopen"], ["delete"], ["reopen"]])
+        yield _case(g, "default", [["crash", "pf", 1, 5, "last"], ["reopen"], ["save", "ok", 2], ["reopen"]])
+        # leftovers next to a good save; both suffixes present (cut between os.replace and the removal)
+        yield _case(g, "default", [["save", "pf", 1], ["crash", "ok", 2, 3, "mid"], ["reopen"], ["delete"], ["reopen"]])
+        yield _case(g, "default", [["save", "pf", 1], ["crash", "ok", 2, 5, "mid"], ["reopen"], ["load"], ["delete"]])
+        # after a delete the history starts over: interrupted save with nothing promised
+        yield _case(g, "default", [["save", "ok", 1], ["delete"], ["crash", "ok", 2, 4, "mid"], ["reopen"]])
+    # class check for every relation the graph kind has, on .pckl and on .cpckl, before and after delete
+    for g in GRAPHS:
+        rels = [["foreign", r] for r in RELS[g]]
+        yield _case(g, "explicit", [["save", "ok", 1], *rels, ["delete"], *rels, ["load"]], True)
+        yield _case(g, "default", [["save", "pf", 1], *rels, ["reopen"], ["delete"], ["reopen"]], True)
+    # every cut of each kind of save on top of a good save, all graph kinds
     for c in CONTENTS:
         for k in range(0, MAXK + 1):
-            yield {"graph": "wf" if k % 2 else "fn", "fname": "default", "clean": False,
-                   "ops": [["save", "ok" if k % 3 else "pf", 1], ["crash", c, 2, k, BYTESEL[k % 3]], ["load"]]}
+            yield _case(GRAPHS[k % 3], "default",
+                        [["save", "ok" if k % 3 else "pf", 1], ["crash", c, 2, k, BYTESEL[k % 3]], ["load"]])
 
 
 # ----------------------------------------------------------------------------- implementation side
@@ -409,51 +472,84 @@ class _Tracer:
         return False
 
 
-def _classes(kind):
+def _graph_class(kind):
     from pyiron_workflow import Workflow
 
-    from . import nodes
+    from . import nodes_c19 as nc
 
-    return (Workflow, nodes.F2) if kind == "wf" else (nodes.F1, Workflow)
+    return {"wf": Workflow, "fn": nc.G, "fac": nc.factory_classes()[0]}[kind]
+
+
+def _foreign_class(kind, rel):
+    """a real class that stands in relation `rel` to the class of the saved graph"""
+    from . import nodes_c19 as nc
+
+    g = _graph_class(kind)
+    if rel == "same":
+        return g
+    if rel == "diffname":
+        return nc.H
+    if kind == "wf":
+        return {"samename": nc.redefined_workflow, "sub": lambda: nc.WfSub}[rel]()
+    if kind == "fn":
+        return {"samename": lambda: nc.redefined().G, "sub": lambda: nc.GSub, "super": lambda: nc.Base}[rel]()
+    _a, second, sub = nc.factory_classes()
+    return {"samename": second, "sub": sub, "super": nc.Base}[rel]
+
+
+def _relation(saved, loader):
+    """what Python itself says about the two classes (checks that `_foreign_class` built what was asked for)"""
+    if loader is saved:
+        return "same"
+    if issubclass(loader, saved):
+        return "sub"
+    if issubclass(saved, loader):
+        return "super"
+    if (loader.__module__, loader.__qualname__) == (saved.__module__, saved.__qualname__):
+        return "samename"
+    return "diffname"
 
 
 def _mk_graph(kind, autoload=False):
-    from pyiron_workflow import Workflow
-
-    from . import nodes
-
+    cls = _graph_class(kind)
     if kind == "wf":
-        return Workflow("g") if autoload else Workflow("g", autoload=None)
-    return nodes.F1(label="g", autoload="pickle") if autoload else nodes.F1(label="g")
+        return cls("g") if autoload else cls("g", autoload=None)
+    return cls(label="g", autoload="pickle") if autoload else cls(label="g")
 
 
-def _mk_foreign(kind):
-    from pyiron_workflow import Workflow
+def _mk_foreign(kind, rel):
+    """another node object (label `zz`, version FOREIGN_VER) whose class is related to the graph's class by `rel`"""
+    from pyiron_workflow.nodes.composite import Composite
 
-    from . import nodes
+    from . import nodes_c19 as nc
 
-    if kind == "wf":
-        return nodes.F2(label="zz", a=FOREIGN_VER)
-    w = Workflow("zz", autoload=None)
-    w.add_child(nodes.F3(label="n", a=FOREIGN_VER))
-    return w
+    cls = _foreign_class(kind, rel)
+    if issubclass(cls, Composite):
+        w = cls("zz", autoload=None)
+        w.add_child(nc.H(label="n", a=FOREIGN_VER))
+        return w
+    return cls(label="zz", a=FOREIGN_VER)
+
+
+def _is_graph(node):
+    from pyiron_workflow.nodes.composite import Composite
+
+    return isinstance(node, Composite)
 
 
 def _holder(node):
     """the function node whose inputs carry version and blob (the node itself or its child `n`)"""
-    from pyiron_workflow import Workflow
-
-    if isinstance(node, Workflow):
+    if _is_graph(node):
         return node.children.get("n")
     return node
 
 
 def _set(node, v, content):
-    from . import nodes
+    from . import nodes_c19 as nc
 
     h = _holder(node)
     if h is None:
-        h = nodes.F0(label="n")
+        h = nc.Base(label="n")
         node.add_child(h)
     h.inputs.a = v
     h.inputs.b = {"ok": 0, "pf": (lambda: 0), "bf": threading.Lock()}[content]
@@ -472,15 +568,13 @@ def _ver(node):
 
 
 def _summary(node):
-    from pyiron_workflow import Workflow
-
     def io(n):
         return ([(k, repr(c.value)) for k, c in n.inputs.items()], [(k, repr(c.value)) for k, c in n.outputs.items()])
 
     try:
-        s = [type(node).__name__, node.label, node.running, node.failed]
-        if isinstance(node, Workflow):
-            s.append([(lab, type(ch).__name__, io(ch)) for lab, ch in node.children.items()])
+        s = [id(type(node)), type(node).__qualname__, node.label, node.running, node.failed]
+        if _is_graph(node):
+            s.append([(lab, id(type(ch)), type(ch).__qualname__, io(ch)) for lab, ch in node.children.items()])
         else:
             s.append(io(node))
     except Exception as e:  # noqa: BLE001
@@ -497,13 +591,12 @@ def _file_state(path, kind):
         return "notafile"
     if os.path.getsize(path) == 0:
         return "empty"
-    g, f = _classes(kind)
     try:
         with open(path, "rb") as fh:
             inst = pickle.load(fh)
     except Exception:  # noqa: BLE001
         return "torn"
-    cls = 0 if type(inst) is g else 1 if type(inst) is f else 9
+    cls = 0 if type(inst) is _graph_class(kind) else 9
     return f"good:{cls}:{_ver(inst)}"
 
 
@@ -537,7 +630,9 @@ def _load_into(node, store, by_name=False):
 
 
 def _reopen(kind, store):
-    """a new object for the same graph, with auto-load; returns (node, result token, exception name)"""
+    """a new object for the same graph, with auto-load; returns (node, result token, exception name).
+    Whether something was loaded is read off the NEW OBJECT (every saved state has a version >= 1), not off the
+    file system."""
     if not store.kw:
         try:
             n = _mk_graph(kind, autoload=True)
@@ -548,8 +643,8 @@ def _reopen(kind, store):
             return _mk_graph(kind), tok, "TypeError"
         except Exception as e:  # noqa: BLE001
             return _mk_graph(kind), "corrupt", type(e).__name__
-        loaded = any((store.root / nm).exists() for nm, sl in store.names.items() if sl in ("pckl", "cpckl"))
-        return n, (f"loaded:{_ver(n)}" if loaded else "fresh"), None
+        v = _ver(n)
+        return n, (f"loaded:{v}" if v else "fresh"), None
     # explicit file name: there is no auto-load; mirror `_after_node_setup` by hand
     n = _mk_graph(kind)
     if n.has_saved_content(**store.kw):
@@ -559,35 +654,39 @@ def _reopen(kind, store):
 
 
 def _probe(kind, store):
-    """side-effect free: what would a load / an auto-load give right now"""
-    tok, exc = _load_into(_mk_graph(kind), store)
+    """side-effect free: what would a load / an auto-load give right now, and what does has_saved_content say"""
+    fresh = _mk_graph(kind)
+    try:
+        has = 1 if fresh.has_saved_content(**store.kw) else 0
+    except Exception as e:  # noqa: BLE001
+        has = f"raised:{type(e).__name__}"
+    tok, exc = _load_into(fresh, store)
     _n, atok, aexc = _reopen(kind, store)
-    return {"load": tok, "load_exc": exc, "auto": atok, "auto_exc": aexc}
+    return {"load": tok, "load_exc": exc, "auto": atok, "auto_exc": aexc, "has": has}
 
 
-def _fmt(res, fs, ver, steps):
+def _fmt(res, fs, has, ver, steps):
     line = (f"{res} | dir={fs['dir']} pckl={fs['pckl']} cpckl={fs['cpckl']} pt={fs['pt']} ct={fs['ct']}"
-            f" | node={ver} | steps={','.join(steps)}")
+            f" | has={has} | node={ver} | steps={','.join(steps)}")
     if fs["extra"]:
         line += " | extra=" + ",".join(fs["extra"])
     return line
 
 
-def _valid(op):
+def _valid(op, kind="wf"):
     if not isinstance(op, list) or not op:
         return False
+    if op[0] == "foreign":
+        return len(op) == 2 and op[1] in RELS.get(kind, ())
     if op[0] == "save":
         return len(op) == 3 and op[1] in CONTENTS and isinstance(op[2], int)
     if op[0] == "crash":
         return len(op) == 5 and op[1] in CONTENTS and isinstance(op[2], int) and isinstance(op[3], int) \
             and op[4] in BYTESEL
-    return op in (["load"], ["delete"], ["reopen"], ["foreign"])
+    return op in (["load"], ["delete"], ["reopen"])
 
 
 def run_impl(case):
-    from . import nodes
-
-    nodes.reset()
     kind = case["graph"]
     store = _Store(case["fname"])
     snap = Path.cwd() / "_snap"
@@ -599,7 +698,7 @@ def run_impl(case):
         stats[k] = stats.get(k, 0) + 1
 
     for op in case["ops"]:
-        if not _valid(op):
+        if not _valid(op, kind):
             obs.append("bad-op")
             recs.append({"op": op, "res": "bad-op"})
             bump("res:bad-op")
@@ -655,19 +754,27 @@ def run_impl(case):
             node, res, exc = _reopen(kind, store)
             rec["exc"] = exc
         else:  # foreign
-            f = _mk_foreign(kind)
+            f = _mk_foreign(kind, op[1])
+            f_cls = type(f)
             before = _summary(f)
             tok, exc = _load_into(f, store, by_name=True)
-            g_cls, f_cls = _classes(kind)
             rec["exc"] = exc
             rec["unchanged"] = _summary(f) == before
             rec["foreign_res"] = tok
-            res = f"{tok} foreign={1 if type(f) is f_cls else 9}:{_ver(f)}"
+            # the relation Python itself reports between the two real classes (must be the one asked for)
+            rec["rel"] = _relation(_graph_class(kind), f_cls)
+            fid = REL_ID[op[1]] if (rec["rel"] == op[1] and type(f) is f_cls) else 9
+            res = f"{tok} foreign={fid}:{_ver(f)}"
         fs = _fs_obs(store, kind)
-        rec.update(res=res, fs=fs, ver=_ver(node), steps=steps, probe=_probe(kind, store))
+        probe = _probe(kind, store)
+        rec.update(res=res, fs=fs, ver=_ver(node), steps=steps, probe=probe)
         recs.append(rec)
-        obs.append(_fmt(res, fs, rec["ver"], steps))
-        bump("op:" + op[0] + (":" + op[1] if op[0] in ("save", "crash") else ""))
+        obs.append(_fmt(res, fs, probe["has"], rec["ver"], steps))
+        bump("op:" + op[0] + (":" + op[1] if op[0] in ("save", "crash", "foreign") else ""))
+        bump(f"state:{'final' if any(fs[x] != 'absent' for x in ('pckl', 'cpckl')) else 'nofinal'}"
+             f"+{'leftover' if any(fs[x] != 'absent' for x in ('pt', 'ct')) else 'clean'}")
+        if all(fs[x] != "absent" for x in ("pckl", "cpckl")):
+            bump("state:both-suffixes")
         bump("res:" + res.split(":")[0].split(" ")[0])
         if op[0] == "save":
             bump("variant:" + ("atomic" if any(s.startswith("replace") for s in steps) else "inPlace"))
@@ -685,32 +792,47 @@ def nontrivial(case, r):
 
 
 def model_input(case, impl=None):
+    kind = case.get("graph", "wf")
     lines = []
     for op in case["ops"]:
-        if isinstance(op, list) and op and op[0] == "crash" and len(op) == 5:
-            lines.append(f"crash {op[1]} {op[2]} {op[3]}")  # the byte selector does not exist in the model
-        elif op == ["foreign"]:
-            lines.append(f"foreign 1 {FOREIGN_VER}")
+        if not _valid(op, kind):
+            # the driver is given the raw line and must reject it itself; only a relation that exists but for which
+            # this graph kind has no real classes is withheld
+            raw = isinstance(op, list) and op and all(isinstance(x, (str, int)) for x in op)
+            if raw and op[0] == "foreign" and len(op) == 2:
+                raw = op[1] not in REL_ID
+                op = [*op, FOREIGN_VER]
+            lines.append(" ".join(map(str, op)) if raw else "malformed")
+            continue
+        if op[0] in ("save", "crash"):
+            # a node whose class comes out of a factory function can only be cloudpickled
+            c = "pf" if (kind == "fac" and op[1] == "ok") else op[1]
+            if op[0] == "save":
+                lines.append(f"save {c} {op[2]}")
+            else:
+                lines.append(f"crash {c} {op[2]} {op[3]}")  # the byte selector does not exist in the model
+        elif op[0] == "foreign":
+            lines.append(f"foreign {op[1]} {FOREIGN_VER}")
         else:
-            lines.append(" ".join(map(str, op)) if isinstance(op, list) and op else "malformed")
+            lines.append(op[0])
     return lines
 
 
-_ALLOWED = {"inPlace", "atomicReplace"}
-_SEEN = {"both": 0, "inPlace": 0, "atomicReplace": 0}
+_TAGS = {"I": "inPlace", "A": "atomicReplace", "S": "atomicSweep"}
+_ALLOWED = set(_TAGS.values())
+_SEEN = {"several": 0, **{v: 0 for v in _TAGS.values()}}
 
 
 def _streams(model):
-    si, sa = [], []
+    st = {v: [] for v in _TAGS.values()}
     for line in model:
-        if line.startswith("I "):
-            si.append(line[2:])
-        elif line.startswith("A "):
-            sa.append(line[2:])
+        tag = line[:1]
+        if tag in _TAGS and line[1:2] == " ":
+            st[_TAGS[tag]].append(line[2:])
         else:
-            si.append(line)
-            sa.append(line)
-    return {"inPlace": si, "atomicReplace": sa}
+            for v in st.values():
+                v.append(line)
+    return st
 
 
 def _first_diff(a, b):
@@ -730,14 +852,14 @@ def diff(case, impl, model):
     match = {v for v, s in st.items() if s == view}
     ok = match & _ALLOWED
     if ok:
-        if len(match) == 2:
-            _SEEN["both"] += 1
+        _ALLOWED.intersection_update(match)
+        if len(match) > 1:
+            _SEEN["several"] += 1
         else:
-            _ALLOWED.intersection_update(match)
             _SEEN[next(iter(match))] += 1
         EXPLANATION = (f"correspondence: the tree matches model variant(s) {sorted(_ALLOWED)} "
-                       f"(cases matching both variants: {_SEEN['both']}, only inPlace: {_SEEN['inPlace']}, "
-                       f"only atomicReplace: {_SEEN['atomicReplace']})")
+                       f"(cases that do not tell the variants apart: {_SEEN['several']}; matching only one: "
+                       + ", ".join(f"{v}: {_SEEN[v]}" for v in _TAGS.values()) + ")")
         return None
     d = {v: _first_diff(view, st[v]) for v in st}
     d["variants_still_consistent_with_earlier_cases"] = sorted(_ALLOWED)
@@ -765,7 +887,24 @@ def _f(clause, trigger, state, k, op, detail, **more):
 
 
 def oracle(case, r):
+    """The property text, clause by clause, on what the implementation showed -- after EVERY op, for the explicit
+    load probe and (default file name) for the auto-load probe = constructing a new graph object of the same label.
+
+    1/3  a completed save (or a later interrupted one that was nevertheless written completely) is what loads;
+    2    no partial file where load / auto-load picks it up;  2'  constructing the graph never raises (an
+         exception out of the constructor IS a poisoned auto-load, whatever left it behind);
+    4    delete removes the files (final names and leftovers of interrupted saves) and the directory it emptied;
+    5    a node whose class is not the very class that was saved is refused and left exactly as it was.
+    """
     fails = []
+    sigs = set()
+
+    def add(f):
+        key = json.dumps(f["signature"], sort_keys=True, default=str)
+        if key not in sigs:
+            sigs.add(key)
+            fails.append(f)
+
     expected = None  # version of the newest completed save since the last delete
     inflight: set[int] = set()  # versions of interrupted saves (serialisable content) after it
     default = case["fname"] == "default"
@@ -773,6 +912,7 @@ def oracle(case, r):
         op, res = rec["op"], rec["res"]
         if res == "bad-op":
             continue
+        n0 = len(fails)
         pr, fs = rec["probe"], rec["fs"]
         trig = {"save": "save" if res == "saved" else "save-failed", "crash": "crash"}.get(op[0], op[0])
         cut = rec.get("cut_after", "")
@@ -795,42 +935,65 @@ def oracle(case, r):
             for via, tok, exc in probes:
                 if tok not in allowed:
                     clause = "last-save-not-returned" if trig == "save" else "previous-save-lost"
-                    fails.append(_f(clause, trig, _state_of(tok), k, op,
-                                    f"{via} gives {tok} ({exc}); expected one of {sorted(allowed)}; files {fs}",
-                                    via=via, cut=cut))
+                    add(_f(clause, trig, _state_of(tok), k, op,
+                           f"{via} gives {tok} ({exc}); expected one of {sorted(allowed)}; files {fs}",
+                           via=via, cut=cut))
                     break
         # clause 2: nothing torn where load / auto-load would pick it up
         for via, tok, exc in probes:
             if tok == "corrupt":
-                fails.append(_f("partial-file-picked-up", trig, "truncated", k, op,
-                                f"{via} raises {exc}; files {fs}", via=via, cut=cut))
+                add(_f("partial-file-picked-up", trig, "truncated", k, op,
+                       f"{via} raises {exc}; files {fs}", via=via, cut=cut))
                 break
-        # clause 4: delete removes the save files and the directory it emptied
+        # clause 2': constructing a graph object of the same label never raises -- with a good save it comes up with
+        # it (clause 1), without one it comes up fresh or with an interrupted save that was written completely
+        if default and pr["auto_exc"] is not None and pr["auto"] != "corrupt" and len(fails) == n0:
+            add(_f("auto-load-poisoned", trig, _state_of(pr["auto"]), k, op,
+                   f"constructing the graph again raises {pr['auto_exc']} ({pr['auto']}); "
+                   f"has_saved_content={pr['has']}; files {fs}", via="auto", cut=cut, exc=pr["auto_exc"]))
+        if expected is None and len(fails) == n0:
+            ok_none = {"fresh", "notFound"} | {f"loaded:{v}" for v in inflight}
+            for via, tok, exc in probes:
+                if tok not in ok_none and not (via == "auto" and exc is not None):
+                    add(_f("state-from-nowhere", trig, _state_of(tok), k, op,
+                           f"{via} gives {tok} although no save completed since the last delete; files {fs}", via=via))
+                    break
+        # clause 4: delete removes the files -- the save files and what interrupted saves left next to them -- and
+        # the directory it emptied
         if op[0] == "delete":
-            left = [s for s in ("pckl", "cpckl") if fs[s] != "absent"]
-            empty_dir = fs["dir"] == 1 and not fs["extra"] and all(fs[s] == "absent" for s in ("pckl", "cpckl", "pt", "ct"))
+            left = [x for x in ("pckl", "cpckl") if fs[x] != "absent"]
+            left_tmp = [x for x in ("pt", "ct") if fs[x] != "absent"]
             if left:
-                fails.append(_f("delete-leaves-files", "delete", "present", k, op, f"files {fs}"))
-            elif empty_dir:
-                fails.append(_f("delete-leaves-empty-directory", "delete", "present", k, op, f"files {fs}"))
+                add(_f("delete-leaves-files", "delete", "present", k, op, f"files {fs}"))
+            elif left_tmp:
+                add(_f("delete-leaves-files", "delete", "leftover", k, op,
+                       f"what an interrupted save left behind is still there, and so is the directory: files {fs}"))
+            elif fs["dir"] == 1 and not fs["extra"]:
+                add(_f("delete-leaves-empty-directory", "delete", "present", k, op, f"files {fs}"))
             elif pr["load"] != "notFound":
-                fails.append(_f("delete-leaves-files", "delete", "loadable", k, op, f"load gives {pr['load']}"))
-        # clause 5: a node of another class is refused and not altered
-        if op[0] == "foreign":
+                add(_f("delete-leaves-files", "delete", "loadable", k, op, f"load gives {pr['load']}"))
+        # clause 5: a node of another class -- anything but the very same class object -- is refused and not altered
+        if op[0] == "foreign" and op[1] != "same":
             tok = rec["foreign_res"]
-            if tok.startswith("loaded"):
-                fails.append(_f("class-check", "foreign", "accepted", k, op, f"foreign node loaded: {res}"))
+            if rec.get("rel") != op[1]:
+                add(_f("harness-error", "foreign", "relation", k, op,
+                       f"asked for relation {op[1]}, the classes are related by {rec.get('rel')}"))
+            elif tok.startswith("loaded"):
+                add(_f("class-check", "foreign", "accepted", k, op,
+                       f"a node whose class is `{op[1]}` w.r.t. the saved class loaded the file: {res}; "
+                       f"node unchanged: {rec['unchanged']}", rel=op[1]))
             elif not rec["unchanged"]:
-                fails.append(_f("class-check", "foreign", "altered", k, op, f"refused ({tok}) but the node changed"))
-            elif pr["load"].startswith("loaded") and tok != "classMismatch":
-                fails.append(_f("class-check", "foreign", "wrong-refusal", k, op, f"own class loads, foreign gives {tok}"))
+                add(_f("class-check", "foreign", "altered", k, op, f"refused ({tok}) but the node changed", rel=op[1]))
         # the live node's own load agrees with what was promised and does not corrupt it when refused
         if op[0] == "load":
-            if expected is not None and not fails and res not in {f"loaded:{expected}"} | {f"loaded:{v}" for v in inflight}:
-                fails.append(_f("previous-save-lost", "load", _state_of(res), k, op, f"live load gives {res}"))
-            if res == "classMismatch" and not rec["unchanged"]:
-                fails.append(_f("class-check", "load", "altered", k, op, "refused but the node changed"))
-        if fails:
+            if expected is not None and len(fails) == n0 \
+                    and res not in {f"loaded:{expected}"} | {f"loaded:{v}" for v in inflight}:
+                add(_f("previous-save-lost", "load", _state_of(res), k, op, f"live load gives {res}"))
+            if not res.startswith("loaded") and not rec["unchanged"]:
+                add(_f("refused-load-alters-node", "load", "altered", k, op, f"load gave {res} but the node changed"))
+        # after a violation the promise bookkeeping no longer means anything -- except after a delete, which promises
+        # nothing about what follows
+        if len(fails) > n0 and op[0] != "delete":
             break
     return fails
 
@@ -839,10 +1002,85 @@ def shrink_candidates(case):
     ops = case["ops"]
     for i in range(len(ops)):
         yield {**case, "ops": ops[:i] + ops[i + 1:]}
-    if case["graph"] != "wf":
+    if case["graph"] != "wf" and all(_valid(op, "wf") for op in ops):
         yield {**case, "graph": "wf"}
     if case["fname"] != "default":
         yield {**case, "fname": "default"}
     for i, op in enumerate(ops):
         if op and op[0] == "crash" and len(op) == 5 and op[3] > 0:
             yield {**case, "ops": ops[:i] + [[*op[:3], op[3] - 1, op[4]]] + ops[i + 1:]}
+
+
+# ----------------------------------------------------------------------------- extended search
+
+
+def extended_search(rng, findings):
+    """Run when the correspondence or a proof is broken and the ordinary cases showed no violation of the property:
+    EVERY history of length <= 3 over the whole alphabet (each kind of save cut at every file-system call, load,
+    delete, auto-load, every class relation), oracle after every op.  Returns the smallest failing input that is not
+    a listed finding, or None."""
+    import sys
+
+    from . import core, engine
+
+    mod = sys.modules[__name__]
+
+    def first_failure(cases):
+        best = None
+        res = core.run_impl_cases(__name__, cases)
+        for c, r in zip(cases, res):
+            if r.get("obs") and str(r["obs"][0]).startswith("HARNESS-ERROR"):
+                continue
+            for f in oracle(c, r):
+                sig = f.get("signature", {"clause": f["clause"]})
+                if core.match_finding(sig, findings) is not None:
+                    continue
+                size = len(json.dumps(c))
+                if best is None or size < best[0]:
+                    best = (size, c, f, r)
+        return best
+
+    def report(best):
+        _size, c, f, r = best
+        small = engine.shrink(mod, c, f["clause"])
+        if small is not c:
+            impl = core.run_impl_cases(__name__, [small], workers=1)[0]
+            ff = next((x for x in oracle(small, impl) if x["clause"] == f["clause"]), None)
+            if ff is not None and core.match_finding(ff.get("signature", {}), findings) is None:
+                c, f, r = small, ff, impl
+        return core.Failure("oracle-failure", c, f["clause"], f.get("detail", ""), f.get("signature", {}),
+                            r.get("obs", []), [])
+
+    # stage 1: length <= 2, every graph kind, default name (+ Workflow with an explicit name)
+    stage1 = []
+    for g, fn in [(g, "default") for g in GRAPHS] + [("wf", "explicit")]:
+        al = _alphabet(g)
+        for a in al:
+            for b in al:
+                stage1.append(_case(g, fn, _number([a, b])))  # the probes after op 1 cover the length-1 history
+    best = first_failure(stage1)
+    if best is not None:
+        return report(best)
+    # stage 2: length 3 on the Workflow graph; cuts beyond the last file-system call of a save are all the same
+    # (measured on the implementation, not taken from the model)
+    probe = [_case("wf", "default", _number([["crash", c, MAXK]])) for c in CONTENTS]
+    maxk = {}
+    for c, r in zip(CONTENTS, core.run_impl_cases(__name__, probe, workers=1)):
+        n = len((r.get("recs") or [{}])[0].get("steps") or [])
+        maxk[c] = min(MAXK, n + 1) if n else MAXK
+    al = _alphabet("wf", maxk)
+    chunk = []
+    for a in al:
+        for b in al:
+            for c in al:
+                chunk.append(_case("wf", "default", _number([a, b, c])))
+        if len(chunk) >= 6000:
+            best = first_failure(chunk)
+            if best is not None:
+                return report(best)
+            chunk = []
+    if chunk:
+        best = first_failure(chunk)
+        if best is not None:
+            return report(best)
+    return None
